@@ -429,6 +429,30 @@ func Run(r *common.Run) error {
 	c.whole(long, []int{5}, 4, "corpus-long")
 	c.whole([]byte(jid.Escape.String(string(long))), []int{5}, 4, "corpus-long")
 
+	// boundary structure: a long prefix WITHOUT anything to transform, then the first escapable
+	// character / escape sequence exactly around the internal buffer sizes of x/text/transform
+	// (128-byte initial destination, 4096-byte reader/writer buffers) and of any "fast path"
+	// that looks at a bounded prefix only
+	var prefixLens []int
+	for _, c := range []int{0, 64, 128, 256, 512, 1024, 4096, 8192} {
+		for d := -3; d <= 3; d++ {
+			if c+d >= 0 {
+				prefixLens = append(prefixLens, c+d)
+			}
+		}
+	}
+	for _, pl := range prefixLens {
+		if r.Quick() && pl > 4200 {
+			continue
+		}
+		for _, tail := range []string{" ", "@x", `\20`, `\5c`, `\5C5c`, `\`, `\2`, `\\20`, "a b\\3a"} {
+			for _, suffix := range []string{"", "zz"} {
+				doc := append(bytes.Repeat([]byte("a"), pl), []byte(tail+suffix)...)
+				c.whole(doc, []int{7}, 4, "boundary")
+			}
+		}
+	}
+
 	// exhaustive: every string up to length L over the alphabet, every
 	// destination capacity 0..cap, both atEOF values, all interfaces.
 	maxLen := r.Pick(4, 6)
